@@ -75,11 +75,30 @@ def gen_cases(tier, rng):
             cases.append('G:a:f=0 arg:%s:b0:init=0 G:b:f=0 arg:%s:b1:init=0 argv:- exp:setup mut:shared-key order:%s' % (k0, k1, o))
     # valid lines with interleaved definitions
     cases.append('G:a:f=0 arg:l:b0:init=0 arg:m:i0: G:b:f=0 arg:x:b1:init=0 arg:y:i1: argv:2d6c,2d79,34,2d78 exp:b0=1;b1=1;i0=0;i1=4 mut:none order:1,0,1,0')
+    # the empty command line: the end-of-line checks of every member still run
+    cases.append('G:a:f=0 arg:m:i0:man G:b:f=0 arg:x:b0:init=0 argv:- exp:reject mut:empty-line')
+    cases.append('G:a:f=0 arg:x:b0:init=0 G:b:f=0 arg:m:s0:man argv:- exp:reject mut:empty-line')
+    cases.append('G:a:f=0 arg:l:b0:init=0 arg:m:b1:init=0 con:one_of:l;m G:b:f=0 arg:x:b2:init=0 argv:- exp:reject mut:empty-line')
+    cases.append('G:a:f=0 arg:x:b0:init=0 G:b:f=0 arg:l:b1:init=0 arg:m:b2:init=0 con:all_of:l;m argv:- exp:reject mut:empty-line')
+    cases.append('G:a:f=0 arg:x:b0:init=0 G:b:f=0 arg:y:i0: argv:- exp:b0=0;i0=0 mut:none')
     guard = 0
     while len(cases) < n and guard < n * 30:
         guard += 1
         args, cons = G.gen_config(rng, rng.range(2, 6))
         mem, mcons, cons = _partition(rng, args, cons)
+        if rng.chance(1, 12):
+            # nothing on the command line: rejected exactly when something is mandatory (an argument, or a handler
+            # constraint all_of / one_of, which need at least one use; any_of means at most one)
+            must = any(a.mand and not ((a.is_vec() or a.kind == 'oi') and a.init) for a in args) or \
+                any(c[0] in ('all_of', 'one_of') for c in cons)
+            if must:
+                cases.append(_line(mem, mcons, [], ('exp:reject', 'mut:empty-line')))
+            elif not G.value_constraints_ok(args, cons, []):
+                continue          # e.g. two vectors with the same initial content in a disjoint constraint
+            else:
+                exp = G.expected_store(args, [])
+                cases.append(_line(mem, mcons, [], ('exp:' + ';'.join('%s=%s' % kv for kv in sorted(exp.items())), 'mut:none')))
+            continue
         uses = G.gen_line(rng, args, cons)
         if uses is None:
             continue
